@@ -1,12 +1,12 @@
 #!/bin/sh
-# ./seedsweep.sh [workers] [pattern]  - regression over the stored seeded changes: each one is
+# ./seedsweep.sh [workers] [pattern...]  - regression over the stored seeded changes: each one is
 # applied to a scratch worktree of /repo (never /repo itself) and its own property's quick check,
 # built from a scratch copy of /verif, has to report a violation. Results: /tmp/seedsweep_<pid>/results.txt
 set -u
-N="${1:-4}"; PAT="${2:-C*-*}"
+N="${1:-4}"; [ $# -gt 0 ] && shift; [ $# -eq 0 ] && set -- "C*-*"
 OUT=/tmp/seedsweep_$$
 rm -rf "$OUT"; mkdir -p "$OUT"
-ls -d /verif/seeded/$PAT | sort > "$OUT/all.txt"
+for PAT in "$@"; do ls -d /verif/seeded/$PAT; done | sort -u > "$OUT/all.txt"
 i=0
 while read -r d; do i=$(( (i % N) + 1 )); echo "$d" >> "$OUT/list_$i.txt"; done < "$OUT/all.txt"
 for i in $(seq 1 "$N"); do
